@@ -69,10 +69,10 @@ func Dot(spec *Spec, w io.WriteCloser, fromNode, toNode string) error {
 			// draw a placeholder so that the branch has an edge
 			// (as Mermaid does).
 			fmt.Fprintf(w, "  %s [shape=\"plaintext\", style=\"dashed\", color=\"gray\", label=<%s> ]\n",
-				dotID(name), name)
+				dotID(name), dotHTML(name))
 			return nil
 		}
-		label := name
+		label := dotHTML(name)
 		if n.Doc != "" {
 			doc := n.Doc
 			if 40 < len(doc) {
@@ -81,7 +81,7 @@ func Dot(spec *Spec, w io.WriteCloser, fromNode, toNode string) error {
 					doc = doc[0 : period+1]
 				}
 			}
-			label += "<BR/><FONT POINT-SIZE='8'>" + doc + "</FONT>"
+			label += "<BR/><FONT POINT-SIZE='8'>" + dotHTML(doc) + "</FONT>"
 		}
 		fillcolor := "#99ddc8"
 		if n.Branches != nil {
@@ -223,6 +223,13 @@ func Dot(spec *Spec, w io.WriteCloser, fromNode, toNode string) error {
 
 	fmt.Fprintf(w, "}\n")
 	return w.Close()
+}
+
+// dotHTML escapes text that goes into an HTML-like label (label=<...>),
+// so that a name or a doc string containing '<' or '>' cannot end the
+// label early or open markup.
+func dotHTML(s string) string {
+	return strings.NewReplacer(`&`, `&amp;`, `<`, `&lt;`, `>`, `&gt;`).Replace(s)
 }
 
 // dotID writes a node name as a quoted Graphviz identifier, so that
